@@ -4,7 +4,8 @@
 (*   - every prefix-length class,                                                                  *)
 (*   - every single edit of a chunk sequence (swap / duplicate / delete / zero-size / oversize at  *)
 (*     position i),                                                                                *)
-(*   - in thorough, a budget of seeded havoc mutations per seed file.                              *)
+(*   - in thorough, joint edits of two sibling fields (pair items) and a budget of seeded havoc     *)
+(*     mutations per seed file.                                                                    *)
 (* The list is finite and independent of VERIF_SEED.  The harness owns the per-format field        *)
 (* inventory and applies every item to every matching field of every seed file; symbols are made   *)
 (* concrete per field (len = file length, rem = exact fitting boundary of the field, orig = its    *)
@@ -46,11 +47,16 @@ ChunkOps == {"swap", "dup", "del", "zero", "over"}
 Positions == {"1", "2", "3", "4", "5", "6", "7", "8", "last"}
 ChunkPlan == {[arch |-> "chunkedit", role |-> op, val |-> p] : op \in ChunkOps, p \in Positions}
 
+\* two sibling fields of one structure edited together (count with offset, offset with size, ...): the model's
+\* adversary chooses count, offset and element size jointly; the single-field items above fix all but one
+PairSymbols == {"0", "rem+1", "orig-1", "orig+1", "u32max"}
+PairPlan == IF Thorough THEN {[arch |-> "pair", role |-> a, val |-> b] : a \in PairSymbols, b \in PairSymbols} ELSE {}
+
 HavocPlan == IF Thorough THEN {[arch |-> "havoc", role |-> "-", val |-> "1200"]} ELSE {}
 
-Plan == SetToSeq(FieldPlan) \o SetToSeq(PrefixPlan) \o SetToSeq(ChunkPlan) \o SetToSeq(HavocPlan)
+Plan == SetToSeq(FieldPlan) \o SetToSeq(PrefixPlan) \o SetToSeq(ChunkPlan) \o SetToSeq(PairPlan) \o SetToSeq(HavocPlan)
 Cases == [i \in 1..Len(Plan) |-> [id |-> i, arch |-> Plan[i].arch, role |-> Plan[i].role, val |-> Plan[i].val]]
 ASSUME ndJsonSerialize(IOEnv.CASES, Cases)
 ASSUME PrintT(<<"GENERATED", Len(Cases), "field", Cardinality(FieldPlan), "prefix", Cardinality(PrefixPlan),
-                "chunkedit", Cardinality(ChunkPlan), "havoc", Cardinality(HavocPlan)>>)
+                "chunkedit", Cardinality(ChunkPlan), "pair", Cardinality(PairPlan), "havoc", Cardinality(HavocPlan)>>)
 =============================================================================
